@@ -415,6 +415,8 @@ def driveLocks (toks : List String) : String :=
     let missing := Locks.programEdges.filter (fun e => !seen.contains (name e.1 ++ ">" ++ name e.2))
     if missing.isEmpty then "R ok"
     else "R nesting-of-the-model-not-observed " ++ ",".intercalate (missing.map (fun e => name e.1 ++ ">" ++ name e.2))
+  | ["repeat", point, cls] =>
+    if Locks.repeatAllowed.contains (point, cls) then "R ok" else "R lock-instance-acquired-twice-within-one-action"
   | ["tries", observed] =>
     if observed == "-" then "R ok"
     else
